@@ -276,6 +276,10 @@ def check_C07(tier, seed, t0):
     descs += P.breakdown_descs(rng, n_of(tier, 40, 400), types=types_for(tier))
     descs += P.geig_basic(rng, n_of(tier, 30, 300), types=("d",), meas=2, lgcs=(2, 6))
     descs += FIXED_BREAKDOWN["C07"]
+    # start vector in the null space of the operator, B-inner product (fallback path of Arnoldi::init)
+    descs += ["cls=greginv;ty=d;fam=nullA;n=%d;nev=2;ncv=7;seed=%d;hist=N,V1,C0,V1,C0;sv1=e1;args0=%d:%d:-10:3;uplo=ll;store=ss;meas=2" % (12 + i, 100 * seed + i, [0, 3, 7][i % 3], [30, 2, 0][i % 3])
+              for i in range(n_of(tier, 4, 16))]
+    descs += ["cls=gchol;ty=d;fam=nullA;n=%d;nev=2;ncv=7;seed=%d;hist=N,V1,C0;sv1=e1;args0=0:30:-10:3;uplo=ll;store=dd;meas=2" % (12 + i, 200 * seed + i) for i in range(2)]
     models = [("MC_IR.tla", "IR_quick.cfg" if tier == "quick" else "IR_design.cfg", 8)]
     return ir_flow("C07", tier, seed, descs, KRY, models, COMMON_ASSUME, t0)
 
